@@ -190,7 +190,15 @@ def ref_point(seg, t):
     if k in ("L", "Z"):
         s, e = seg[1], seg[2]
         return (s[0] + t * (e[0] - s[0]), s[1] + t * (e[1] - s[1]))
+    if k == "Q":
+        u = 1.0 - t
+        return tuple(u * u * seg[1][i] + 2 * u * t * seg[2][i] + t * t * seg[3][i] for i in (0, 1))
+    if k == "C":
+        u = 1.0 - t
+        return tuple(u * u * u * seg[1][i] + 3 * u * u * t * seg[2][i] + 3 * u * t * t * seg[3][i] + t * t * t * seg[4][i] for i in (0, 1))
     _, s, rx, ry, rot, fa, fs, e = seg
+    if s == e or rx == 0 or ry == 0:
+        return (s[0] + t * (e[0] - s[0]), s[1] + t * (e[1] - s[1]))
     c = arcref.endpoint_to_centre(s[0], s[1], rx, ry, rot, fa, fs, e[0], e[1])
     if t == 0:
         return tuple(s)
@@ -211,9 +219,16 @@ def compare_with_reference(o, got, ref, M, S, what, arc_rel=1e-9, line_rel=1e-12
         k = r[0]
         rel = arc_rel if k == "A" else line_rel
         tol = rel * S
-        if k == "A":
+        if k == "A" and min(r[2], r[3]) > 0:
             amp = (max(r[2], r[3]) / min(r[2], r[3])) * c02.cond(M)
-            tol = (rel + 1e-15 * amp * amp) * max(S, max(r[2], r[3]) * gen.mat_norm(M) * 2)
+            c = arcref.endpoint_to_centre(r[1][0], r[1][1], r[2], r[3], r[4], r[5], r[6], r[7][0], r[7][1])
+            arel = rel
+            rr = max(r[2], r[3])
+            if c is not None:
+                rr = max(c.rx, c.ry)
+                if c.lam >= 1.0 - 1e-12:
+                    arel = max(rel, 1e-6)  # radii scaled up: square root of a rounding-noise radicand (see C05)
+            tol = (arel + 1e-15 * amp * amp) * max(S, rr * gen.mat_norm(M) * 2)
         for t in (TS if k != "M" else [1.0]):
             p = lib.xy(g.point(t)) if k != "M" else lib.xy(g.end)
             w = gen.mat_apply(M, ref_point(r, t))
